@@ -1781,10 +1781,12 @@ func (cs *CachingScheduleTracker) genTTLs() {
 		numLeaves := cs.numLeaves[i]
 		toDestroy := cs.toDestroy[i]
 
-		// Revert the cached positions by a block.
+		// Revert the additions of the block. The positions that were created in
+		// this block are read before the deletions are reverted as they didn't
+		// exist when the deletions happened.
 		var createdIdxs []int
-		cached, createdIdxs = getPrevPos(
-			CSTTotalRows, cached, deletions, toDestroy, numAdds, numLeaves)
+		cached, createdIdxs = undoAdd(
+			CSTTotalRows, cached, toDestroy, numAdds, numLeaves)
 
 		// Set ttls. We go backwards since the undo undoes the bigger positions first.
 		for j := len(createdIdxs) - 1; j >= 0; j-- {
@@ -1809,6 +1811,9 @@ func (cs *CachingScheduleTracker) genTTLs() {
 			cached = slices.Delete(cached, useIdx, useIdx+1)
 			xy = slices.Delete(xy, useIdx, useIdx+1)
 		}
+
+		// Revert the deletions of the block for the positions that existed before it.
+		cached = undoDel(CSTTotalRows, cached, deletions, numLeaves-uint64(numAdds))
 
 		// Append new deletions.
 		cached = append(cached, deletions...)
